@@ -24,7 +24,7 @@ LEVEL = "exploration"
 RULE = (
     "Hypothesis: schema of 1-5 fields from 16 chains (ENUM[DRAFT,ACTIVE,DEPRECATED], ENUM[a,A], ENUM[Active,ACTIVE,INACTIVE], "
     "ENUM[Yes,No], ENUM[PASS,PASS_WITH_NOTES,FAIL], TYPE[NUMBER], TYPE[NUMBER]∧RANGE[1,10], TYPE[STRING], TYPE[BOOLEAN], CONST, "
-    "REGEX, with REQ/OPT) x instance values from a 60-entry pool (case variants, prefixes, numeric text: 42, ' 7 ', +5, 1e5, "
+    "REGEX, with REQ/OPT) x instance values from a 66-entry pool (case variants, prefixes, numeric text: 42, ' 7 ', +5, 1e5, "
     "1_000, 0x10, Arabic-Indic digits, 1e400, nan, inf, 25-digit decimals, 2**53+1, -0, 007, .5, 5.; wrong kinds; zones) x missing/"
     "extra fields x unrelated blocks/zones, in canonical and one lenient spelling; through repair(fix off/on, twice), "
     "octave_validate(fix off/on) and octave_write(lenient, schema). Oracle: fix off => normal form identical, log empty; fix on => "
@@ -50,7 +50,7 @@ STR_VALUES = ["active", "Active", "ACTIVE", "aCtIvE", "ACT", "act", "draft", "DR
               "pass_with_notes", "Pass_With_Notes", "inactive", "INACTIVE", "x", "X", "abc", "ABC",
               "42", " 7 ", "+5", "-3", "1e5", "1E5", "1_000", "0x10", "١٢", "1e400", "-1e400", "nan", "inf", "-inf", "Infinity",
               "12345678901234567890.5", "0.10000000000000001", "9007199254740993", "-0", "-0.0", "1.0", "007", ".5", "5.", "3.14", "1e-3", "1,000", "12abc",
-              "", " ", "５"]
+              "", " ", "５", " active", "ACTIVE ", "  draft ", "Yes ", " a", "pass\t"]  # (padded ENUM values: more than a case change)
 OTHER_VALUES = [("true", True), ("false", False), ("5", 5), ("3.5", 3.5), ("[a,b]", ["a", "b"]), ("null", None), ("word", "word"), ("ACTIVE", "ACTIVE")]
 
 
